@@ -11,7 +11,7 @@ ROOT=$(cd "$(dirname "$0")" && pwd)
 cd "$ROOT/harness" || exit 0
 case "$ID" in
   C05) ARGS="--scale 0.001 --threads 1" ;;
-  C09) ARGS="--scale 0.0005 --threads 1" ;;
+  C09) ARGS="--scale 0.0002 --threads 1" ;;
   *) exit 0 ;;
 esac
 LOG="$ROOT/.run/miri-$ID.log"
